@@ -17,7 +17,7 @@ func dump(st []rbtree.VerifNode, n uint32) string {
 	if st[n].Black {
 		c = "B"
 	}
-	return fmt.Sprintf("(%d %d %d %s %s %s)", n, st[n].Key, st[n].Value, c, dump(st, st[n].Left), dump(st, st[n].Right))
+	return fmt.Sprintf("(%d^%d %d %d %s %s %s)", n, st[n].Parent, st[n].Key, st[n].Value, c, dump(st, st[n].Left), dump(st, st[n].Right))
 }
 
 func main() {
